@@ -151,6 +151,8 @@ func buildC11Cells() []c11cell {
 			return n
 		}
 		out = append(out, c11cell{name: k.String() + ".Required (absent)", node: mk, parse: missingKey{}, val: obs.NormValue(reflect.Zero(mk().GoType())), code: "required", dtype: mk().DType()})
+		// a blank string is an absent value for every kind: the issue refers to that input
+		out = append(out, c11cell{name: k.String() + ".Required (blank input)", node: mk, parse: " \t ", code: "required", dtype: mk().DType(), value: " \t "})
 		if k != spec.String && k != spec.Slice {
 			out = append(out, c11cell{name: k.String() + " coerce", node: mk, parse: "definitely not coercible", code: "coerce", dtype: mk().DType(), value: "definitely not coercible"})
 		}
@@ -161,6 +163,15 @@ func buildC11Cells() []c11cell {
 		}
 		out = append(out, c11cell{name: "Ptr(" + k.String() + ").NotNil (nil)", node: pk, parse: missingKey{}, val: obs.PtrV{Nil: true}, code: "not_nil", dtype: mk().DType()})
 	}
+	// custom schemas: the user's function failed and no message was given / the input is not a T
+	cust := func() *spec.Node {
+		n := customOf(0)
+		n.Tests[0].PredName, n.Tests[0].Pred = "false", func(any) bool { return false }
+		n.Number()
+		return n
+	}
+	out = append(out, c11cell{name: "Custom[int] function fails (no message given)", node: cust, parse: 5, val: 5, code: "", dtype: "custom", value: 5})
+	out = append(out, c11cell{name: "Custom[int] coerce (input is not an int)", node: cust, parse: "not an int", code: "coerce", dtype: "custom", value: "not an int"})
 	st := func() *spec.Node {
 		n := structOf("a", str())
 		n.Number()
